@@ -337,8 +337,10 @@ func (g *G) genC02(p *Plan) {
 	keys := append([]string{}, plainKeys[g.rng.Intn(len(plainKeys))]...)
 	keys = keys[:g.n(1, len(keys)):len(keys)]
 	keys = append([]string{}, keys...)
-	if !c.IsFS() && g.chance(0.3) {
-		keys = append(keys, "a", "a/b") // path-prefix keys are fine on opaque backends
+	if g.chance(0.3) {
+		// path-prefix keys: fine on opaque backends; a file-system backend
+		// holds one of the two at a time and refuses the newcomer
+		keys = append(keys, "a", "a/b")
 	}
 	bkt := func() string {
 		if g.chance(0.08) && c.Backend != "singlefs" {
